@@ -20,6 +20,8 @@ def check(chk, thorough=False):
     chk.run('C05.d', 'R-LINEAR', 'data budget = mtu - N + 1 - h with N measured on the filled, empty-payload fragment and h the head size of the total payload length', lambda ob: c05d(tree, ob), floor=3)
     chk.run('C05.e', 'R-SCHEMA', 'security TX steps run before fragment creation; fragments re-enter through Agent.send_bundle', lambda ob: c05e(tree, ob), floor=3)
     chk.run('C05.f', 'R-NOPATH', 'when fragmentation is impossible nothing altered is transmitted: no mutation of the original before a raise; a failed TX step never reaches the sender', lambda ob: c05f(tree, ob), floor=2)
+    chk.run('C05.h', 'R-ORDER', 'sizes seen by the TX steps include the CRC fields: the bundle is filled before the TX chain runs, and block filling always reaches the CRC placeholder step', lambda ob: c05h(tree, ob), floor=3)
+    chk.run('C05.i', 'R-FLOW', 'functions scheduled once with glib.idle_add (send_bundle for fragments and reports, recv_bundle) never return a truthy value, which would make GLib call them again', lambda ob: c05i(tree, ob), floor=3)
     chk.run('C05.g', 'R-PAIR', 'deleting a block encoded data also drops its parsed payload (else it is regenerated and the "empty" measurement is full size)', lambda ob: c05g(tree, ob), floor=1)
 
 
@@ -289,6 +291,60 @@ def c05f(tree, ob):
                        'the original bundle is already modified ({}) when fragmentation is found impossible, and it is then transmitted'.format(src(m)[:50]), r)
     else:
         ob.site(AGENT, h, 'a failed TX step stops the send ({} raise site(s) in the fragmenter after a mutation are therefore harmless)'.format(len(mutated_raises)))
+
+
+def c05h(tree, ob):
+    fa = FuncView(tree, AGENT, 'Agent.send_bundle')
+    lp = one([n for n in walk_local(fa.func) if isinstance(n, ast.For) and src(n.iter) == 'self._tx_chain'], 'TX chain loop', ob)
+    fills = [c for c in calls_in(fa.func) if pm('ctr.bundle.fill_fields()', c) is not None]
+    pre = [c for c in fills if fa.dominates(c, lp)[0] and fa.node(c) not in fa.cfg.reachable([fa.node(lp.iter)])]
+    if not pre:
+        ob.violate(AGENT, fa.qual, 'ctr.bundle.fill_fields() before the TX chain', 'the TX steps (fits-the-MTU decision, fragment sizing) see the bundle without its CRC placeholders: '
+                   'a bundle up to 8 octets over the MTU is handed to the convergence layer whole', lp)
+    else:
+        ob.site(AGENT, pre[0], 'bundle filled (CRC placeholders) before the TX chain')
+    for (rel, qual) in ((BLOCKS, 'CanonicalBlock.fill_fields'),):
+        fv = FuncView(tree, rel, qual)
+        sup = [c for c in calls_in(fv.func) if isinstance(c.func, ast.Attribute) and c.func.attr == 'fill_fields' and isinstance(c.func.value, ast.Call) and dotted(c.func.value.func) == 'super']
+        if not sup or not fv.cfg.must_pass(fv.cfg.entry, fv.cfg.exit, {fv.node(sup[0])}, include_exc=False)[0]:
+            ob.violate(rel, qual, 'super().fill_fields()', 'a block can be "filled" without reserving its CRC field (e.g. when its data is already present): fragments with CRC-protected '
+                       'extension blocks are measured too small and exceed the MTU', fv.func)
+        else:
+            ob.site(rel, sup[0], qual + ' always reaches the CRC placeholder step')
+    fb = FuncView(tree, 'bp/encoding/bundle.py', 'Bundle.fill_fields')
+    prim = [c for c in calls_in(fb.func) if pm('self.primary.fill_fields()', c) is not None]
+    loops = [n for n in walk_local(fb.func) if isinstance(n, ast.For) and src(n.iter) == 'self.blocks' and any(pm('{}.fill_fields()'.format(src(n.target)), c) is not None for c in calls_in(n))]
+    if not prim or not loops:
+        ob.violate('bp/encoding/bundle.py', fb.qual, 'primary + every block', 'filling a bundle does not cover the primary block and every canonical block', fb.func)
+    else:
+        ob.site('bp/encoding/bundle.py', loops[0], 'Bundle.fill_fields covers primary and every block')
+    fx = FuncView(tree, BLOCKS, 'AbstractBlock.fill_fields')
+    sets = [n for n in walk_local(fx.func) if isinstance(n, ast.Assign) and pm('self.fields[self.crc_value_name]', n.targets[0]) is not None and pm("defn['encode'](0)", n.value) is not None]
+    if not sets or not fx.has(sets[0], 'crc_type', True):
+        ob.violate(BLOCKS, fx.qual, "self.fields[crc_value_name] = defn['encode'](0)", 'a block with a CRC type does not get a placeholder of the right width', fx.func)
+
+
+def c05i(tree, ob):
+    ''' glib.idle_add(f, ...) re-runs f as long as it returns a truthy value. '''
+    n = 0
+    for rel in sorted(r for r in tree.modules if r.startswith('bp/')):
+        for (r, qual, func) in tree.all_functions([rel]):
+            for call in calls_in(func):
+                if call_name(call) != 'glib.idle_add' or not call.args:
+                    continue
+                tgt = call.args[0]
+                if not (isinstance(tgt, ast.Attribute) and tgt.attr in ('send_bundle', 'recv_bundle')):
+                    continue
+                fm = tree.find_method(AGENT, 'Agent', tgt.attr)
+                ob.require(fm is not None, 'scheduled method not found')
+                n += 1
+                bad = [x for x in walk_local(fm[2]) if isinstance(x, ast.Return) and x.value is not None and not (isinstance(x.value, ast.Constant) and not x.value.value)]
+                if bad:
+                    ob.violate(AGENT, 'Agent.' + tgt.attr, src(bad[0]), 'Agent.{} is scheduled with glib.idle_add ({} in {}) and can return a non-false value: GLib then calls it again '
+                               'with the same bundle (e.g. a stripped original is transmitted next to its fragments)'.format(tgt.attr, src(call)[:50], qual), bad[0])
+                else:
+                    ob.site(rel, call, '{} scheduled once: {} never returns a truthy value'.format(qual, tgt.attr))
+    ob.require(n >= 3, 'idle-scheduled bundle functions')
 
 
 def c05g(tree, ob):
